@@ -1,4 +1,5 @@
 import RedactVerif.Props.L2
+import RedactVerif.Props.FactsClassify
 /-
 C06 — Unsafe(x) envelopes all of x; Safe(x) envelopes none; outermost wins.
 
